@@ -184,6 +184,11 @@ static int parse_cb(cfg_t *cfg, cfg_opt_t *opt, const char *value, void *result)
 		*(const char **)result = g_strkeep.back().c_str();
 		break;
 	case CFGT_PTR: {
+		if (!opt->freecb) { // no release function registered: hand out storage the library never owns
+			static char unowned[8] = "unowned";
+			*(void **)result = unowned;
+			break;
+		}
 		char *blk = (char *)malloc(strlen(value) + 1);
 		strcpy(blk, value);
 		g_ptr_live.insert(blk);
@@ -308,7 +313,7 @@ static string snap_opt(cfg_opt_t *opt, int depth)
 			break;
 		case CFGT_PTR: {
 			void *p = cfg_opt_getnptr(opt, i);
-			if (p && g_ptr_live.count(p))
+			if (p && (g_ptr_live.count(p) || !opt->freecb))
 				r += jstr((const char *)p);
 			else if (p)
 				r += "\"dead\"";
@@ -630,6 +635,19 @@ static void run_script(const string &script)
 		bool api = true;
 		int saved_errno = 0;
 
+		static const std::set<string> cfg_cmds = {"free", "errfunc", "searchpath", "parse_buf", "parse_fp", "parse_file", "setint",
+			"setfloat", "setbool", "setstr", "setlist", "addlist", "setmulti", "osetmulti", "setopt", "setcomment", "addtsec",
+			"rmsec", "rmnsec", "rmtsec", "getopt", "getnopt", "getsec", "getnsec", "gettsec", "size", "getint", "getfloat",
+			"getbool", "getstr", "getcomment", "title", "setvalidate", "setvalidate2", "printfunc", "filter", "dump", "print",
+			"findfile"};
+		static const std::set<string> opt_cmds = {"osetint", "osetfloat", "osetbool", "osetstr", "osetcomment", "ormnsec", "ormtsec",
+			"ogetnsec", "ogettsec", "oprintfunc", "odump", "oprint", "nprintvar"};
+		if ((cfg_cmds.count(c) && !hcfg(N(1))) || (opt_cmds.count(c) && !hopt(N(1))) ||
+		    ((c == "setopt" || c == "osetmulti") && !hopt(N(2)))) {
+			g_out += o + ",\"skipped\":1}\n";
+			flush_out();
+			continue;
+		}
 		if (c == "schema") {
 			long sid = N(1);
 			g_schema[sid] = build_opts(sid);
